@@ -4,6 +4,7 @@ import io
 from hypothesis import strategies as st
 
 from vlib import harness, gen_iso, codecs_, refcodec, refvbs
+from vlib.strat import uniform
 from vlib.harness import exc_sig
 from cardutil import card, iso8583, mciipm
 
@@ -89,19 +90,19 @@ def decode_cases(draw, tier):
     rep = codecs_.repertoire(codec)
     alpha = ''.join(c for c in NODIGIT if c in rep)
     hexbm = draw(st.booleans())
-    bit = draw(st.one_of(st.sampled_from([2, 2, 9, 64, 65, 127]), st.integers(2, 127)))
+    bit = draw(st.one_of(st.sampled_from([2, 2, 9, 64, 65, 127]), uniform(2, 127)))
     ftype = draw(st.sampled_from(['LLVAR', 'LLLVAR']))
     proc = draw(st.sampled_from(['PAN', 'PAN', 'PAN-PREFIX']))
     top = 99 if ftype == 'LLVAR' else 999
-    n = draw(st.one_of(st.sampled_from([10, 11, 12, 13, 15, 16, 19, 20, 21, 40, top]), st.integers(10, 40)))
+    n = draw(st.one_of(st.sampled_from([10, 11, 12, 13, 15, 16, 19, 20, 21, 40, top]), uniform(10, 40)))
     pan = draw(st.one_of(st.text(alphabet='0123456789', min_size=n, max_size=n),
                          st.sampled_from(['1', '9', '0']).map(lambda d: d * n)))
     config = {str(bit): {'field_type': ftype, 'field_length': 0, 'field_processor': proc}}
     msg = {'MTI': draw(st.sampled_from(['1240', '1644'])), 'DE%d' % bit: pan}
-    others = draw(st.lists(st.integers(2, 127).filter(lambda b: b != bit), max_size=4, unique=True))
+    others = draw(st.lists(uniform(2, 127).filter(lambda b: b != bit), max_size=4, unique=True))
     for b in others:
         kind = draw(st.sampled_from(['FIXED', 'LLVAR', 'LLLVAR']))
-        ln = draw(st.integers(1, 30))
+        ln = draw(uniform(1, 30))
         config[str(b)] = {'field_type': kind, 'field_length': ln if kind == 'FIXED' else 0}
         msg['DE%d' % b] = draw(gen_iso.tiled_text(codec, ln, alphabet=alpha))
     blocked = draw(st.booleans())
